@@ -170,6 +170,9 @@ func (c *Ctx) csvxRun() *simpleVerdict {
 						sep := cfg.seps[k%len(cfg.seps)]
 						text := csvWrite(table, cfg, q, sep)
 						v.runs++
+						if k%701 == 0 {
+							noteSample("CSV.roundtrip/tables", fmt.Sprintf("separators %q quotes %q eol %q: %q", string(cfg.seps), string(cfg.quotes), cfg.eol, text))
+						}
 						r := h.tokenize(text)
 						show := fmt.Sprintf("separators %q quotes %q line ending %q: table %q written as %q", string(cfg.seps), string(cfg.quotes), cfg.eol, table, text)
 						if r.kind == "panic" {
